@@ -1,9 +1,112 @@
-(* C08 - every started session is accounted to a Stop, across outages and crashes. *)
+(* C08 - every started session is accounted to a Stop, across outages and crashes.
+   Statements only; proofs are in Proofs/AcctProofs.v.
+
+   Subject: Model/Acct.v [step] (AccountingManager + accounting half of the RADIUS client as a
+   crash-aware persistence protocol) observed through Model/AcctSpec.v ([holds k]: clause k of the
+   monitor holds at every step of a trace).  [trace maxr ops] is the Model's own (op, output)
+   trace from the initial state; ops range over ALL histories: every op carries its oracle (which
+   requests the server drops), its crash countdown (which crash point kills the process) and the
+   observed iteration orders. *)
 From Coq Require Import NArith List.
 From Verif Require Import Model.Gigaword Model.Acct Model.AcctSpec Proofs.AcctProofs.
 Import ListNotations.
 Local Open Scope N_scope.
 
-Theorem C08_gigaword_exact : forall v, join (split v) = v.
+Definition C08_clause (k : N) : Prop :=
+  forall maxr ops, holds k (sinit maxr) (trace maxr ops) = true.
+
+(* (2) never a Stop for a session that was not started: full *)
+Theorem C08_no_stop_for_unstarted_session : C08_clause 2.
+Proof. exact (clause_256 2 (or_introl eq_refl)). Qed.
+Print Assumptions C08_no_stop_for_unstarted_session.
+
+(* (5) records carry the session's own id / user / MAC / IP: full *)
+Theorem C08_records_carry_own_identifiers : C08_clause 5.
+Proof. exact (clause_256 5 (or_intror (or_introl eq_refl))). Qed.
+Print Assumptions C08_records_carry_own_identifiers.
+
+(* (6) counters: the wire split is exact for every value, fits the two 32-bit attributes for every
+   64-bit value, and every accepted Stop/Interim record of every history decodes to a supplied pair *)
+Theorem C08_gigaword_join_split : forall v, join (split v) = v.
 Proof. exact join_split. Qed.
-Print Assumptions C08_gigaword_exact.
+Print Assumptions C08_gigaword_join_split.
+
+Theorem C08_gigaword_fits : forall v, v < G64 ->
+  fst (split v) < G32 /\ match snd (split v) with Some g => 0 < g /\ g < G32 | None => v < G32 end.
+Proof. exact split_fits. Qed.
+Print Assumptions C08_gigaword_fits.
+
+Theorem C08_counters_reported_exactly : C08_clause 6.
+Proof. exact (clause_256 6 (or_intror (or_intror eq_refl))). Qed.
+Print Assumptions C08_counters_reported_exactly.
+
+(* (1) no Stop before its Start: refuted (K08a) *)
+Theorem C08_stop_after_start_refuted : ~ C08_clause 1.
+Proof. exact clause1_refuted. Qed.
+Print Assumptions C08_stop_after_start_refuted.
+
+(* (3) absent a crash an acknowledged Stop is not sent again: refuted twice (K08e, K08f) *)
+Theorem C08_no_resend_refuted : ~ C08_clause 3.
+Proof. exact clause3_refuted. Qed.
+Print Assumptions C08_no_resend_refuted.
+
+Theorem C08_no_resend_refuted_drain_leaves_files : holds 3 (sinit 2) (trace 2 w3a) = false.
+Proof. exact clause3_refuted_drain. Qed.
+Print Assumptions C08_no_resend_refuted_drain_leaves_files.
+
+Theorem C08_no_resend_refuted_queue_and_retry_scan : holds 3 (sinit 2) (trace 2 w3b) = false.
+Proof. exact clause3_refuted_double. Qed.
+Print Assumptions C08_no_resend_refuted_queue_and_retry_scan.
+
+(* (4) every ended session has an acknowledged or durably queued Stop: refuted four ways
+   (K08b volatile queue, K08c Start window, K08d pending.json deleted on load, K08b at recovery) *)
+Theorem C08_stop_delivered_or_durable_refuted : ~ C08_clause 4.
+Proof. exact clause4_refuted. Qed.
+Print Assumptions C08_stop_delivered_or_durable_refuted.
+
+Theorem C08_stop_lost_volatile_queue : holds 4 (sinit 2) (trace 2 w4a) = false.
+Proof. exact clause4_refuted_volatile_queue. Qed.
+Print Assumptions C08_stop_lost_volatile_queue.
+
+Theorem C08_stop_lost_start_window : holds 4 (sinit 2) (trace 2 w4b) = false.
+Proof. exact clause4_refuted_start_window. Qed.
+Print Assumptions C08_stop_lost_start_window.
+
+Theorem C08_stop_lost_pending_json_deleted_on_load :
+  holds 4 (sinit 2) (trace 2 (firstn 4 w4c)) = true /\ holds 4 (sinit 2) (trace 2 w4c) = false.
+Proof. exact clause4_refuted_pending_json. Qed.
+Print Assumptions C08_stop_lost_pending_json_deleted_on_load.
+
+Theorem C08_stop_lost_at_recovery : holds 4 (sinit 2) (trace 2 w4d) = false.
+Proof. exact clause4_refuted_recovery. Qed.
+Print Assumptions C08_stop_lost_at_recovery.
+
+(* (4) partial: crash-free histories (no crash point armed, no kill, no graceful stop / restart),
+   under every outage pattern.  "Within the retry budget" is part of clause 4 itself: a session is
+   exempt only when the server dropped more than MaxRetries of its Stop transmissions. *)
+Theorem C08_stop_delivered_or_durable_partial : forall maxr ops,
+  crash_free ops = true -> holds 4 (sinit maxr) (trace maxr ops) = true.
+Proof. exact clause4_partial. Qed.
+Print Assumptions C08_stop_delivered_or_durable_partial.
+
+(* non-vacuity: a crash-free history with an outage that the retry path repairs within the budget;
+   the guard holds, the Stop is dropped twice, delivered on the third transmission, and the Final
+   observation has something to check (one ended session) *)
+Definition C08_ex_ops : list op :=
+  [Start 1 (1, 2, 3) [] 0; InterimTick 4294967296 7 [(1, 3)] [1] 0; Stop 1 1 18446744073709551615 4294967295 [(1, 2)] 0;
+   ProcessQueued [] 0; ProcessQueued [(1, 2)] 0; RetryTick [] [0] 0; Final].
+Example C08_partial_guard_satisfiable :
+  (crash_free C08_ex_ops = true) /\
+  (N.of_nat (length (filter (fun e : wrec * bool => negb (snd e))
+                            (flat_map (fun x : op * out => o_ev (snd x)) (trace 3 C08_ex_ops)))) = 3) /\
+  (st_pend (fold_left (fun s o => fst (fst (step s o))) C08_ex_ops (init 3)) = []).
+Proof. vm_compute. repeat split. Qed.
+
+(* the acceptor run on the implementation's traces rejects with clause k only where clause k fails *)
+Theorem C08_acceptor_sound : forall ss o r,
+  match accept ss o r with
+  | inl ss' => ss' = supd ss o r /\ forall k, In k [1; 2; 3; 4; 5; 6] -> op_ok k ss o r = true
+  | inr k => op_ok k ss o r = false
+  end.
+Proof. exact accept_sound. Qed.
+Print Assumptions C08_acceptor_sound.
